@@ -30,7 +30,7 @@ typedef smt::idl_theory TH;
 #include "verif.h"
 using namespace smt;
 
-#define MAXT 4
+#define MAXT 6
 #define MAXCN 6
 #define R 8
 static int x[MAXT]; // THE symbolic assignment of the time points (x[0] = 0 is the origin)
